@@ -38,7 +38,7 @@ Proof. vm_compute. reflexivity. Qed.
 Example DEFAULT_OVERFLOW_src_ok : DEFAULT_OVERFLOW_src = lit "fold".
 Proof. vm_compute. reflexivity. Qed.
 Example wrap_pass_order_ok :
-  wrap_pass_order = map lit ["expand_tabs"; "divide"; "rstrip_end"; "justify"; "truncate"; "extend"].
+  wrap_pass_order = map lit ["expand_tabs"; "divide"; "rstrip_end"; "justify"; "truncate"].
 Proof. vm_compute. reflexivity. Qed.
 
 (* ------------------------------------------------------------------ whitespace scanners *)
